@@ -120,7 +120,7 @@ fn one_case<const N: usize>(ctx: &mut Ctx, idx: usize) {
 }
 
 pub fn run(ctx: &mut Ctx) {
-    let reps = if ctx.thorough() { 30 } else { 4 };
+    let reps = if ctx.thorough() { 150 } else { 4 };
     let mut idx = 0;
     for _ in 0..reps {
         for &n in NS.iter() {
